@@ -1,20 +1,18 @@
 (* C14 property theorems (statements only; proofs are in Proofs.v).
-   Machine: the C13 tree machine (C13/Model.v) plus the three search carriers (C14/Model.v).
-   [query] (SharesManager.query) is a parameter: every theorem holds for every query function.
-   The own-name filters, the legacy code test and constants are SlskGen.DistGen, regenerated from
-   distributed.py and search/manager.py on every run. *)
+   Machine: the C13 tree machine (C13/Model.v) plus the three search carriers (C14/Model.v), the
+   code after the repairs of F10 and F17.  [query] (SharesManager.query) is a parameter: every
+   theorem holds for every query function.  The own-name filters, the legacy code test and
+   constants are SlskGen.DistGen, regenerated from distributed.py and search/manager.py. *)
 From Slsk Require Import Base.Tac.
 From SlskGen Require Import DistGen.
 From Slsk Require Import C13.Model C13.Proofs C14.Model C14.Proofs.
 Open Scope Z_scope.
 
-(* Fan-out: after every history (tree events and searches, any Hold/Release schedule) in which no
-   child announces branch values (shape of F10), a request that is passed on reaches every current
-   child exactly once, unchanged (user, ticket, query), and nothing is written anywhere else: not
-   to the parent, not to candidates or other non-children, not to closed connections, not to the
-   server. *)
-Theorem C14_fanout_exact_partial : forall query evs e k u t q,
-  along14 query (fun s e => negb (child_announces s e)) init evs = true ->
+(* Fan-out, after EVERY history (tree events and searches, any Hold/Release schedule): a request
+   that is passed on reaches every current child exactly once, unchanged (user, ticket, query),
+   and nothing is written anywhere else: not to the parent, not to candidates or other
+   non-children, not to closed connections, not to the server.  (Full statement: F10 repaired.) *)
+Theorem C14_fanout_exact : forall query evs e k u t q,
   let s := run14 query init evs in
   forwarded s e = Some (k, u, t, q) ->
   (forall c, In c (children s) -> conn_of c (forward s e) = [CSearch k u t q]) /\
@@ -24,30 +22,25 @@ Theorem C14_fanout_exact_partial : forall query evs e k u t q,
   srv_of (forward s e) = [] /\ closed_of (forward s e) = [].
 Proof. exact fanout_run. Qed.
 
-(* ... and when the handler does not pass the request on, nothing is written at all *)
+(* ... when the handler does not pass the request on, nothing is written at all ... *)
 Theorem C14_not_forwarded_silent : forall s e, forwarded s e = None -> forward s e = [].
 Proof. exact not_forwarded. Qed.
 
-(* With F10 the request of the parent is sent back to the parent. *)
-Theorem C14_fanout_refuted : exists evs e p,
-  let s := run14 noq init evs in parent s = Some p /\ conn_of p (forward s e) <> [].
-Proof. exact fanout_refuted. Qed.
+(* ... and requests of other users ARE passed on by every carrier (legacy: with the right code). *)
+Theorem C14_others_forwarded : forall s u t q k, Nat.eqb u me = false ->
+  forwarded s (ServerSearch k u t q) = Some (k, u, t, q) /\
+  (forall c, live c s = true -> forwarded s (DistSearch c k u t q) = Some (k, u, t, q)) /\
+  (forall c code, live c s = true -> legacy_code_ok code = true ->
+     forwarded s (LegacySearch c code k u t q) = Some (LEGACY_UNKNOWN, u, t, q)).
+Proof. exact others_forwarded. Qed.
 
-(* Own searches: the server carrier is neither forwarded nor answered (any state with a session). *)
-Theorem C14_own_not_forwarded_or_answered_partial : forall query s k t q, session s = true ->
-  forward s (ServerSearch k me t q) = [] /\ answer query s (ServerSearch k me t q) = [].
-Proof. exact own_server. Qed.
-
-(* The two distributed carriers forward AND answer own searches (F17), for every query function
-   that has a result for some own query. *)
-Theorem C14_own_not_forwarded_or_answered_refuted : forall query q, query me q <> ([], []) ->
-  exists evs c ch k t,
-    let s := run14 query init evs in
-    session s = true /\ parent s = Some c /\ In ch (children s) /\
-    conn_of ch (forward s (DistSearch c k me t q)) <> [] /\ answer query s (DistSearch c k me t q) <> [] /\
-    conn_of ch (forward s (LegacySearch c DIST_SEARCH_MESSAGE_ID k me t q)) <> [] /\
-    answer query s (LegacySearch c DIST_SEARCH_MESSAGE_ID k me t q) <> [].
-Proof. exact own_refuted. Qed.
+(* Own searches are neither forwarded nor answered, whatever carrier brings them, from any state
+   with a session.  (Full statement: F17 repaired.) *)
+Theorem C14_own_not_forwarded_or_answered : forall query s k t q, session s = true ->
+  (forward s (ServerSearch k me t q) = [] /\ answer query s (ServerSearch k me t q) = []) /\
+  (forall c, forward s (DistSearch c k me t q) = [] /\ answer query s (DistSearch c k me t q) = []) /\
+  (forall c code, forward s (LegacySearch c code k me t q) = [] /\ answer query s (LegacySearch c code k me t q) = []).
+Proof. exact own_all. Qed.
 
 (* Answer: for a search of another user, from any state with a session, every carrier produces
    exactly one reply (to the asker, same ticket, own name, the visible and locked lists of the
@@ -62,17 +55,18 @@ Theorem C14_answer_exact : forall query s u t q k, session s = true -> Nat.eqb u
 Proof. exact answer_exact. Qed.
 
 (* non-vacuity: a tree with parent 1 and children 2, 3; a search of user 4 coming from the parent
-   is forwarded to both children, and answered once when the query has results *)
+   is forwarded to both children and answered once when the query has results; the own search
+   through the same carrier is dropped *)
 Definition nvq : name -> nat -> list nat * list nat := fun u q => if Nat.eqb q 1 then ([7%nat; 8%nat], [9%nat]) else ([], []).
 Definition nv14 : list ev14 :=
   map Tree [SessionInit; PeerInit 1%nat 1%nat true; BranchLevel 1%nat 3; BranchRoot 1%nat 5%nat; PeerInit 2%nat 2%nat false; PeerInit 3%nat 3%nat false]
   ++ [DistSearch 1%nat 49 4%nat 11 0%nat].
 Example C14_nonvacuous :
-  along14 nvq (fun s e => negb (child_announces s e)) init nv14 = true /\
   let s := run14 nvq init nv14 in
   forwarded s (DistSearch 1%nat 49 4%nat 12 1%nat) = Some (49, 4%nat, 12, 1%nat) /\
   children s = [2%nat; 3%nat] /\ parent s = Some 1%nat /\ session s = true /\
   forward s (DistSearch 1%nat 49 4%nat 12 1%nat) = [OConn 2%nat (CSearch 49 4%nat 12 1%nat); OConn 3%nat (CSearch 49 4%nat 12 1%nat)] /\
   answer nvq s (DistSearch 1%nat 49 4%nat 12 1%nat) = [mkReply 4%nat 12 me [7%nat; 8%nat] [9%nat]] /\
-  answer nvq s (DistSearch 1%nat 49 4%nat 12 0%nat) = [].
+  answer nvq s (DistSearch 1%nat 49 4%nat 12 0%nat) = [] /\
+  forward s (DistSearch 1%nat 49 me 12 1%nat) = [] /\ answer nvq s (DistSearch 1%nat 49 me 12 1%nat) = [].
 Proof. vm_compute. repeat split; reflexivity. Qed.
